@@ -296,6 +296,17 @@ def _all_cons_closure(prog, n):
     return out
 
 
+def check_instances(trace):
+    """C08 / C17 mechanism: every invocation gets a new node object (a node may keep per-call state on self;
+    a reused object makes in-process modes differ from the process pool, which works on a pickled copy)."""
+    out = []
+    for r in trace:
+        if r['k'] == 'body_start' and r.get('inst_uses'):
+            out.append(F(['C08', 'C17'], 'node_instance_reused', node=r['node'], uses=r['inst_uses']))
+            break
+    return out
+
+
 def check_dispatch(obs, prog):
     """C17/C06: each node is dispatched as its declaration says: coroutine / inline on the loop, sync nodes
     without the non_async tag through the thread pool, process-tagged nodes through the process pool."""
